@@ -111,5 +111,12 @@ func NewValueObject(fields map[string]*Value) *Value {
 }
 
 func (self ValueObject) IntoAnyObject() *Value {
-	return NewValueAnyObject(self.FieldsInternal)
+	// A copy: if the any-object shared its fields with the typed object, `set` on the any-object
+	// would store values of any type into fields whose static type says otherwise.
+	fields := make(map[string]*Value, len(self.FieldsInternal))
+	for key, field := range self.FieldsInternal {
+		copied := *field
+		fields[key] = &copied
+	}
+	return NewValueAnyObject(fields)
 }
